@@ -171,6 +171,8 @@ def check(ctx: Ctx) -> None:
                     if is_set:
                         ctx.fail("C16.remove", where, f"' '.join({short(seq)})", "the remaining class tokens pass through a set: their order is lost "
                                  "(and differs between interpreter runs with different hash seeds)", witness="div(class_='a b c').remove_class('b')")
+                    elif isinstance(seq, SList) and seq.mode == "carried" and _kept_by_loop(ctx, l, seq, arg, where):
+                        pass
                     elif _split_of(seq) is not None and muts:
                         pass  # already reported via list.remove
                     elif _split_of(seq) is not None and any(
@@ -214,6 +216,28 @@ def check(ctx: Ctx) -> None:
     ctx.min_count("remove_class pop paths", npop, 1)
     # ---------------- css() -------------------------------------------------------------------------------------------------------------------
     css_obligations(ctx)
+
+
+def _kept_by_loop(ctx: Ctx, l: Any, seq: SList, arg: SObj, where: str) -> bool:
+    """kept = []; for tok in <class value>.split(): if tok != <stripped argument>: kept.append(tok)"""
+    from ..loopbuilt import contributions, iter_base
+    cs = contributions(l, seq)
+    recs = [r for r in l.run.loops if _split_of(iter_base(r.iter_value)) is not None]
+    if not recs:
+        return False
+    el = recs[0].__dict__.get("element")
+    eqs = [(a, v) for a, v in l.atoms if isinstance(a, tuple) and a[0] == "eq" and any((x.v if isinstance(x, _K) else x) is el for x in a[1:3])]
+    if len(eqs) != 1:
+        return False
+    a, v = eqs[0]
+    other = [x.v if isinstance(x, _K) else x for x in a[1:3] if (x.v if isinstance(x, _K) else x) is not el][0]
+    tok_ok = other is arg or (isinstance(other, SStr) and _strip_of(other, arg))
+    appended = [c for c in cs if c["how"] == "append" and c["loop"] is recs[0] and c["value"] is el]
+    good = tok_ok and ((v is False and len(appended) == 1 and len(cs) == 1) or (v is True and not cs))
+    ctx.check(good, "C16.remove", "a token is appended to the kept list iff it differs (!=) from the stripped argument, in split() order", where,
+              f"token {'==' if v else '!='} argument: appends {[short(c['value']) for c in cs]}",
+              "remove_class does not keep exactly the tokens that differ from the argument", witness="div(class_='foo foobar foo').remove_class('foo')")
+    return True
 
 
 def _of(recv: Any, obj: SObj) -> bool:
@@ -284,15 +308,22 @@ def css_obligations(ctx: Ctx) -> None:
                       f"None: {l.kind}", "a None property value produces output")
             continue
         n += 1
-        if stores and not any(len(l.env[nme].frags) > 1 for nme in accs):
+        list_apps = [e for e in stores if e.kind == "mutcall" and e.key == "append" and isinstance(e.target, SList) and e.target.mode == "carried"
+                     and e.value and isinstance(e.value[0], SStr)]
+        if len(list_apps) == 1 and len(stores) == 1 and not any(len(l.env[nme].frags) > 1 for nme in accs):
+            # declarations.append(<decl>) ... "".join(declarations): the same stream as `res += <decl>`
+            fr = list(list_apps[0].value[0].frags)
+            accs = []
+        elif stores and not any(len(l.env[nme].frags) > 1 for nme in accs):
             tgt = stores[0].target
             ctx.fail("C16.css", CSS, f"{stores[0].kind} into {short(tgt)}",
                      "css() collects declarations in a container keyed by the normalised name instead of appending one declaration per "
                      "argument: two arguments that normalise to the same property are merged and reordered",
                      witness="css(font_size='12px', color='red', fontSize='1rem')")
             continue
-        ctx.require(len(accs) == 1, f"css: no single string accumulator ({rec.carried})")
-        fr = list(l.env[accs[0]].frags[1:])
+        if accs or not list_apps:
+            ctx.require(len(accs) == 1, f"css: no single string accumulator ({rec.carried})")
+            fr = list(l.env[accs[0]].frags[1:])
         # shape: KEY ':' VALUE ';' COLLAPSE
         lits = [f.a for f in fr if f.kind == "LIT"]
         shape_ok = len(fr) == 5 and fr[1].kind == "LIT" and fr[1].a == ":" and fr[3].kind == "LIT" and fr[3].a == ";" \
